@@ -1,1 +1,48 @@
-From TT Require Import Base.Prelude Base.ImscXml Model.ImscTime Model.ImscTiming Spec.TtmlTimingSpec.
+(* Recorded findings for C04 (findings_proposed/C04.txt).  If this file stops compiling a finding is stale, which the
+   check reports as such (it is not a violation). *)
+From TT Require Import Base.Prelude Base.ImscXml Model.ImscTime Model.ImscTiming Model.ImscTriggers Spec.TtmlTimingSpec.
+From TT Require Import Proofs.C04.TimeSyntax Proofs.C04.Interval Proofs.C04.Total.
+From Coq Require Import QArith.
+Local Open Scope Z_scope.
+
+Definition ev0 : env := mkEnv 1 (30 # 1) [] (fun _ _ => false).
+Definition pc0 : pctx := mkPctx true None 0 false [] true.
+
+(* seq-indefinite-sibling: <div timeContainer="seq"><p>a</p><p>b</p></div> aborts the read (TypeError), although the
+   TTML2 semantics give the div a (indefinite) interval; the trigger fires on it *)
+Definition seq_witness : xml :=
+  X T_div [(A_timeContainer, V_seq)] None None [X T_p [] (Some [97]) None []; X T_p [] (Some [98]) None []].
+Theorem C04_read_total_refuted : exists ev x pc, rates_ok ev /\ pc_par pc = true /\ process ev pc x = PErr 1 /\
+  trigger_seq (tv_of ev) false x = true.
+Proof.
+  exists ev0, seq_witness, pc0. split; [|split; [|split]].
+  - split; [reflexivity|]. reflexivity.
+  - reflexivity.
+  - vm_compute. reflexivity.
+  - vm_compute. reflexivity.
+Qed.
+
+(* zero-rate-division: ttp:frameRate="0" makes begin="10f" raise ZeroDivisionError *)
+Theorem C04_zero_rate_refuted : exists x, process (mkEnv 1 0 [] (fun _ _ => false)) pc0 x = PErr 2.
+Proof. exists (X T_p [(A_begin, [49; 48; 102])] None None []). reflexivity. Qed.
+
+(* tickrate-default: under ttp:frameRate="25" and no ttp:tickRate the reader uses 1 tick per second, TTML2 gives 25 *)
+Theorem C04_tick_default_refuted : exists attrs, ~ (inject_Z (extract_tick_rate attrs) == spec_tick_rate attrs)%Q.
+Proof. exists [(A_frameRate, [50; 53])]. intro H. vm_compute in H. discriminate. Qed.
+
+(* lax-value-syntax: "10fx" is not a time expression and is read as 10 frames; "1s\n" likewise *)
+Theorem C04_time_reject_refuted : exists s, ~ in_grammar s /\ parse_time (Some 1) (Some (25 # 1)) s <> None.
+Proof.
+  exists [49; 48; 102; 120]. split.
+  - change [49; 48; 102; 120] with ([49; 48; 102] ++ [120]). apply not_in_grammar_last; [reflexivity|]. simpl. intuition discriminate.
+  - vm_compute. discriminate.
+Qed.
+Theorem C04_time_reject_newline_refuted : exists s, ~ in_grammar s /\ parse_time (Some 1) (Some (25 # 1)) s <> None.
+Proof.
+  exists ([49; 115] ++ [10]). split.
+  - apply not_in_grammar_last; [reflexivity|]. simpl. intuition discriminate.
+  - vm_compute. discriminate.
+Qed.
+
+Print Assumptions C04_read_total_refuted.  Print Assumptions C04_zero_rate_refuted.  Print Assumptions C04_tick_default_refuted.
+Print Assumptions C04_time_reject_refuted.  Print Assumptions C04_time_reject_newline_refuted.
